@@ -131,6 +131,17 @@ func (p *parser) parseIPv4Number(u *Url, input string) (number int64, validation
 		validationError = true
 		return
 	}
+	// strconv.ParseInt accepts a sign and reports an overflow before it has seen a later
+	// non-digit; the IPv4 number parser only accepts radix-R digits.
+	for i := 0; i < len(input); i++ {
+		c := input[i]
+		isDigit := c >= '0' && c <= '9' && int(c-'0') < R
+		isHexAlpha := R == 16 && ((c >= 'a' && c <= 'f') || (c >= 'A' && c <= 'F'))
+		if !isDigit && !isHexAlpha {
+			err = strconv.ErrSyntax
+			return
+		}
+	}
 	number, err = strconv.ParseInt(input, R, 64)
 	return
 }
